@@ -402,8 +402,14 @@ fn convert_prom_to_arrow(req: &WriteRequest) -> Result<RecordBatch> {
             .collect();
 
         for sample in &ts.samples {
-            // Convert milliseconds to nanoseconds
-            timestamps.push(sample.timestamp_ms * 1_000_000);
+            // Convert milliseconds to nanoseconds (reject timestamps that do not fit)
+            let timestamp_ns = sample.timestamp_ms.checked_mul(1_000_000).ok_or_else(|| {
+                crate::Error::InvalidSchema(format!(
+                    "Sample timestamp {} ms is out of range",
+                    sample.timestamp_ms
+                ))
+            })?;
+            timestamps.push(timestamp_ns);
             metric_names.push(metric_name.clone());
 
             // Detect value type and route to appropriate column
